@@ -27,7 +27,11 @@ _ADAPTER = None
 _TIMEOUTS = [0]
 
 
+_REPO = ['/repo']
+
+
 def _init_worker(adapter_mod, adapter_args, repo):
+    _REPO[0] = repo
     global _ADAPTER
     os.environ['VERIF_REPO'] = repo
     cwd = os.path.join(os.environ.get('VERIF_RUNDIR') or WORK, 'cwd-%d' % os.getpid())
@@ -64,8 +68,20 @@ def _run_batch(lines):
             r = _ADAPTER.on_timeout(case)
         except Exception as e:
             signal.alarm(0)
-            out['errors'].append('adapter crashed: %s\n%s' % (e, traceback.format_exc()[-1500:]))
-            continue
+            # An exception raised INSIDE the tree under test (innermost frame in its sources) on a case the
+            # specification declares valid is a divergence of the code; anything else is a harness problem.
+            tb = traceback.extract_tb(e.__traceback__)
+            inner = tb[-1].filename if tb else ''
+            own = [f for f in tb if os.path.realpath(f.filename).startswith(os.path.realpath(_REPO[0]) + os.sep)]
+            if own and (os.path.realpath(inner).startswith(os.path.realpath(_REPO[0]) + os.sep) or 'site-packages' in inner):
+                r = {'steps': 1, 'div': [{'kind': 'code_raised', 'action': 'call', 'component': 'exception', 'features': [],
+                                          'detail': '%s: %s' % (type(e).__name__, str(e)[:300]),
+                                          'where': ['%s:%d %s' % (os.path.basename(f.filename), f.lineno, f.name) for f in tb[-4:]],
+                                          'case': {k: case[k] for k in list(case)[:6]} if isinstance(case, dict) else None,
+                                          'adapter': type(_ADAPTER).__module__}]}
+            else:
+                out['errors'].append('adapter crashed: %s\n%s' % (e, traceback.format_exc()[-1500:]))
+                continue
         finally:
             signal.alarm(0)
         out['cases'] += 1
